@@ -15,6 +15,7 @@
 -/
 import UnifexModel.Proto.AsyncStackLemmas
 import UnifexModel.Proto.AsyncStackScripts
+import UnifexModel.Proto.AsyncStackFamily
 
 namespace Unifex.Props.C20
 open Unifex.Proto.AsyncStack
@@ -193,6 +194,22 @@ theorem then_chain_depths :
       obsNums St.init (thenPending n) [] = some [(n + 1, n + 1), (n + 1, 1)] ∧
       obsNums St.init (thenInline n) [] = some [(n + 1, n + 1), (2 * n + 2, 1)] := by
   decide +kernel
+
+/-- the plain recursive form `thenOps n` is what the builder (`thenPending`, the scenario compared with
+    the real code) emits — n = 0 … 5 -/
+theorem thenOps_is_thenPending : ∀ n, n < 6 → opsOf (thenPending n) = thenOps n := by
+  decide +kernel
+
+/-- **for EVERY nesting depth n** (induction, Proto/AsyncStackFamily.lean): the operations emitted for
+    then^n(leaf) — n+1 connects, n+1 nested starts, n+1 nested completions — are accepted by the
+    discipline, so on the empty thread they run without tripping an assertion and leave no current root,
+    every root destroyed without an active frame, every frame deactivated as often as activated -/
+theorem then_family_accepted_and_balanced (n : Nat) :
+    ∃ s', run St.init (thenOps n) = some s' ∧ s'.cur = none ∧
+      (∀ r, r < s'.nRoots → (s'.roots r).live = false ∧ (s'.roots r).top = none) ∧
+      (∀ f, f < s'.nFrames → (s'.frames f).acts = (s'.frames f).deacts) := by
+  obtain ⟨g', h, hb⟩ := thenOps_accepted n
+  exact async_stack_balanced_from_scratch _ h hb
 
 /-! ### non-vacuity -/
 
